@@ -31,6 +31,32 @@ pub async fn account_snapshot(account: &mut LocalAccount) -> Result<Value> {
             json!({"name": f.name(), "flags": f.flags().bits(), "desc": desc, "secrets": secrets}),
         );
     }
+    // attachments: the blobs in the files directory (each must hash to its
+    // name) and the files named by the file event log
+    let mut blobs = Vec::new();
+    let paths = account.paths();
+    for f in sos_external_files::list_external_files(&paths).await? {
+        use sha2::{Digest, Sha256};
+        let p = paths.into_file_path(&f);
+        let state = match std::fs::read(&p) {
+            Ok(bytes) if hex::encode(Sha256::digest(&bytes)) == f.file_name().to_string() => "ok",
+            Ok(_) => "content does not hash to the name",
+            Err(_) => "unreadable",
+        };
+        blobs.push(format!("{}/{}/{} {state}", f.vault_id(), f.secret_id(), f.file_name()));
+    }
+    blobs.sort();
+    let mut named: Vec<String> = {
+        use sos_sync::StorageEventLogs;
+        account
+            .canonical_files()
+            .await?
+            .iter()
+            .map(|f| format!("{}/{}/{} ok", f.vault_id(), f.secret_id(), f.file_name()))
+            .collect()
+    };
+    named.sort();
+    folders.insert("attachments".to_string(), json!({"blobs": blobs, "named_by_file_log": named}));
     Ok(json!(folders))
 }
 
@@ -96,10 +122,26 @@ async fn import_into(
     let target_dir = jail.join("target");
     std::fs::create_dir_all(&target_dir)?;
     let target = make_target(&target_dir, backend).await?;
-    let res = LocalAccount::import_backup_archive(archive, &target)
-        .await
-        .map(|a| a.len())
-        .map_err(|e| format!("{e}"));
+    // a panic of the importer is an outcome, not a harness failure
+    let res = {
+        let archive = archive.to_path_buf();
+        let target = target.clone();
+        let hook = std::panic::take_hook();
+        std::panic::set_hook(Box::new(|_| {}));
+        let joined = tokio::spawn(async move {
+            LocalAccount::import_backup_archive(&archive, &target)
+                .await
+                .map(|a| a.len())
+                .map_err(|e| format!("{e}"))
+        })
+        .await;
+        std::panic::set_hook(hook);
+        match joined {
+            Ok(r) => r,
+            Err(e) => Err(format!("PANIC in import_backup_archive: {e}")),
+        }
+    };
+    crate::account_world::close_target(&target).await;
     // nothing may be written outside the target directory
     let escaped: Vec<String> = list_files(jail)
         .into_iter()
@@ -118,10 +160,22 @@ async fn import_into(
         }
     } else {
         // a rejected archive must not leave an account behind
-        let target = crate::account_world::reopen_target(&target_dir, backend).await?;
-        if let Ok(accounts) = target.list_accounts().await {
-            if !accounts.is_empty() {
-                snapshot = Some(json!({"accounts_after_rejected_import": accounts.len()}));
+        match crate::account_world::reopen_target(&target_dir, backend).await {
+            Ok(target) => {
+                if let Ok(accounts) = target.list_accounts().await {
+                    if !accounts.is_empty() {
+                        snapshot = Some(json!({"accounts_after_rejected_import": accounts.len()}));
+                    }
+                }
+            }
+            Err(e) => {
+                // what is there cannot even be opened: list it
+                let left: Vec<String> = list_files(&target_dir)
+                    .into_iter()
+                    .map(|p| format!("{} ({} bytes)", p.strip_prefix(&target_dir).unwrap_or(&p).display(),
+                        std::fs::metadata(&p).map(|m| m.len()).unwrap_or(0)))
+                    .collect();
+                snapshot = Some(json!({"storage_after_rejected_import_unusable": format!("{e}"), "files": left}));
             }
         }
     }
@@ -230,6 +284,36 @@ pub async fn c18_check(
         es.push((vname.clone(), other));
         mutants.push((format!("duplicate entry {vname} with other content"), es));
     }
+    // entry names of attachments (files/<folder>/<secret>/<name>) rewritten so
+    // that their sanitised form still looks like an attachment
+    if let Some(i) = entries
+        .iter()
+        .position(|(n, d)| (n.starts_with("files/") || n.starts_with("blobs/")) && !d.is_empty())
+    {
+        let (name, data) = entries[i].clone();
+        let parts: Vec<&str> = name.split('/').collect();
+        if parts.len() >= 4 {
+            let last = parts[parts.len() - 1];
+            let head2 = parts[..2].join("/");
+            let head3 = parts[..3].join("/");
+            let evil_names = vec![
+                format!("{head2}/../../../../../escaped-{last}"),
+                format!("{head3}/../../../../../../escaped2-{last}"),
+                format!("/{name}"),
+                format!("../{name}"),
+            ];
+            for evil in evil_names {
+                // renamed
+                let mut es = entries.clone();
+                es[i].0 = evil.clone();
+                mutants.push((format!("attachment entry renamed to {evil}"), es));
+                // and as an extra entry
+                let mut es = entries.clone();
+                es.push((evil.clone(), data.clone()));
+                mutants.push((format!("extra entry named {evil}"), es));
+            }
+        }
+    }
     for (what, es) in mutants {
         let bad = work.join("mutant.zip");
         if write_entries(&bad, &es).await.is_err() {
@@ -242,12 +326,21 @@ pub async fn c18_check(
             problems.push(format!("{backend}: archive with {what} wrote outside the import target: {escaped:?}"));
         }
         match (&res, &snap) {
+            (Err(e), None) if e.starts_with("PANIC") => problems.push(format!(
+                "{backend}: importing an archive with {what} panicked instead of being rejected"
+            )),
             (Err(_), None) => {}
             (Err(_), Some(s)) => problems.push(format!(
                 "{backend}: archive with {what} was rejected but left storage behind: {s}"
             )),
             (Ok(_), Some(s)) if *s == original => {
                 out.count("mutants_accepted_identical", 1);
+            }
+            (Ok(_), _) if what.contains(" of files/") || what.contains(" of blobs/") || what.starts_with("attachment entry renamed") => {
+                // attachment entries are not covered by a manifest checksum: the
+                // property's rejection clause does not apply to them; only the
+                // containment of writes (checked above) does
+                out.count("attachment_mutants_accepted", 1);
             }
             (Ok(_), other) => {
                 if what.starts_with("extra entry") {
